@@ -27,7 +27,7 @@ def build(ctx):
     x.ext_fn('read_xl_file', why='xlsx reading (office crate)')
     x.sub(r'\bPathBuf\b', 'crate::xl::Path', 'R1')
     x.replace('fn read_xl_file(path: &Path, sheet_name: Option<&str>) -> Result<Range, SError>', 'fn read_xl_file(path: &crate::xl::Path, sheet_name: Option<&str>) -> Result<crate::xl::Range, SError>', 'R1')
-    x.replace('args.sheet.as_ref().map(|v| v.as_str()),', 'hole_sheet_name(&args.sheet),', 'H')
+    x.replace('args.sheet.as_ref().map(|v| v.as_str())', 'hole_sheet_name(&args.sheet)', 'H')
     # iterator chains -> stand-in adapters (R32); the closures keep their text
     x.sub(r'\btxs\s*\.into_iter\(\)', 'crate::itx::vec_iter(txs)', 'R32', required=True)
     x.sub(r'(?s)let accounts: HashSet<&Account> =\s*HashSet::from_iter\(txs\.iter\(\)\.map\(\|tx\| &tx\.account\)\);', 'let accounts = hole_account_set(&txs);', 'H', required=True)
